@@ -94,6 +94,14 @@ def run(ctx):
             for ci, c in enumerate(cases):
                 if c[4] != 'edge' and (c[0], c[4] == 'trivial') not in seen: seen.add((c[0], c[4] == 'trivial')); gsub.append(ci)
             go = vlib.run_lines(exe, ['guard 1'] + [lines[ci] for ci in gsub] + ['guard 0'], timeout=3600)[1:-1]
+            # ... and evaluated on a thread with a 64 KiB stack (the keys made on the main thread before)
+            so = vlib.run_lines(exe, ['stack 64'] + [lines[ci] for ci in gsub[::2]] + ['stack 0'], timeout=3600)[1:-1]
+            for ci, o in zip(gsub[::2], so):
+                ctx.count((backend, build, lam, 'stack64', lines[ci][:4000]))
+                if io[ci].startswith('CRASH'): continue
+                if o.startswith('CRASH') or ints(o)[1] != ints(io[ci])[1]:
+                    ctx.report('gate-small-stack', '%s/%s %d-bit set: %s %s when evaluated on a thread with a 64 KiB stack: %s' % (backend, build, lam, cases[ci][1], 'dies' if o.startswith('CRASH') else 'decides otherwise than on the main thread', o[:60]),
+                               {'case': lines[ci][:200000], 'backend': backend, 'build': build, 'stack_kib': 64}); break
             for ci, o in zip(gsub, go):
                 ctx.count((backend, build, lam, 'guard', lines[ci][:4000]))
                 if o.startswith('CRASH'):
@@ -238,6 +246,9 @@ def replay(ctx, data):
         print('gate %s after a sequence of %d gates under alternating key sets: expected bit %s, recorded %s; implementation now: phase, bit = %s' % (data.get('gate'), len(data['sequence']), data.get('expected_bit'), data.get('observed_bit'), o.split()[:2]))
         return 0
     if 'case' not in data: print(json.dumps(data)[:1500]); return 0
+    if data.get('stack_kib'):
+        o = vlib.run_lines(exe, ['stack %d' % data['stack_kib'], data['case']], timeout=1800)[-1]
+        print('evaluated on a thread with a %d KiB stack the implementation answers now:' % data['stack_kib'], o[:120]); return 1 if o.startswith('CRASH') else 0
     if data.get('guard'):
         o = vlib.run_lines(exe, ['guard 1', data['case']], timeout=1800)[-1]
         print('with the ciphertext arrays ending at inaccessible pages the implementation answers now:', o[:120]); return 1 if o.startswith('CRASH') else 0
